@@ -93,12 +93,16 @@ func CheckEpochs(c *core.Ctx, d1 *lref.DAG, desc string, sealFrame int, kind str
 		}
 		return "?" + id.String()
 	}
-	violate := func(cat, sig string, replay interface{}, format string, a ...interface{}) {
+	// violate reports a mismatch of a category this check judges and returns true; mismatches of other categories
+	// are only counted (they belong to a sibling check) and, where the instance is still usable, the exploration
+	// goes on - otherwise a sibling's mismatch at a small event set would hide this check's own at a larger one
+	violate := func(cat, sig string, replay interface{}, format string, a ...interface{}) bool {
 		if rep[cat] {
 			c.Violation(sig, replay, format, a...)
-		} else {
-			c.Count("other_category_mismatches", 1)
+			return true
 		}
+		c.Count("other_category_mismatches", 1)
+		return false
 	}
 	mkCfg := func() Config {
 		k := cfg
@@ -160,12 +164,14 @@ func CheckEpochs(c *core.Ctx, d1 *lref.DAG, desc string, sealFrame int, kind str
 		if int(es.Epoch) == int(d1.Epoch) {
 			// not sealed: same monitors as the single-epoch exploration
 			if refSealed {
-				violate("epoch", "epoch/seal-missed", replay(), "the reference decides frame %d inside this event set but the instance did not seal [%v]", sealFrame, replay())
-				return false
+				if violate("epoch", "epoch/seal-missed", replay(), "the reference decides frame %d inside this event set but the instance did not seal [%v]", sealFrame, replay()) {
+					return false
+				}
 			}
 			if cat, msg := CheckBlocks(d1, node, byID1, rep); cat != "" {
-				violate(strings.SplitN(cat, "/", 2)[0], cat, replay(), "%s [%v]", msg, replay())
-				return false
+				if violate(strings.SplitN(cat, "/", 2)[0], cat, replay(), "%s [%v]", msg, replay()) {
+					return false
+				}
 			}
 			var ids []hash.Event
 			for _, x := range maskList(nm) {
@@ -173,8 +179,9 @@ func CheckEpochs(c *core.Ctx, d1 *lref.DAG, desc string, sealFrame int, kind str
 			}
 			obs := node.Observe(name, ids, maxFrame1+1)
 			if prev, ok := table[nm]; ok && prev != obs {
-				violate("order", "order/state-depends-on-order", replay(), "event set %v reached in two orders observes different states:\n A: %s\n B: %s", maskList(nm), prev, obs)
-				return false
+				if violate("order", "order/state-depends-on-order", replay(), "event set %v reached in two orders observes different states:\n A: %s\n B: %s", maskList(nm), prev, obs) {
+					return false
+				}
 			}
 			table[nm] = obs
 			if len(node.Blocks) > midBlocks || (len(node.Blocks) == midBlocks && len(seq) > len(midPath)) {
@@ -201,8 +208,9 @@ func CheckEpochs(c *core.Ctx, d1 *lref.DAG, desc string, sealFrame int, kind str
 			}
 		}
 		if msg != "" {
-			violate("epoch", "epoch/unclean-switch", replay(), "%s [%v]", msg, replay())
-			return false
+			if violate("epoch", "epoch/unclean-switch", replay(), "%s [%v]", msg, replay()) {
+				return false
+			}
 		}
 		// blocks of the sealed epoch against the graph monitors (the node's blocks are all epoch 1)
 		if cat, m := CheckBlocks(d1, node, byID1, rep); cat != "" {
@@ -358,8 +366,9 @@ func CheckEpochs(c *core.Ctx, d1 *lref.DAG, desc string, sealFrame int, kind str
 			}
 			for _, b := range node.Blocks[nb:] {
 				if b.Epoch != idx.Epoch(d2.Epoch) {
-					violate("epoch", "epoch/old-epoch-block-after-seal", replay(), "[%s] a block of epoch %d was emitted after the switch [%v]", st.name, b.Epoch, replay())
-					return false
+					if violate("epoch", "epoch/old-epoch-block-after-seal", replay(), "[%s] a block of epoch %d was emitted after the switch [%v]", st.name, b.Epoch, replay()) {
+						return false
+					}
 				}
 			}
 			// monitors on the new epoch's blocks
@@ -379,20 +388,23 @@ func CheckEpochs(c *core.Ctx, d1 *lref.DAG, desc string, sealFrame int, kind str
 			}
 			node.Blocks = keep
 			if cat != "" {
-				violate(strings.SplitN(cat, "/", 2)[0], cat, replay(), "[%s] new epoch: %s [%v]", st.name, m, replay())
-				return false
+				if violate(strings.SplitN(cat, "/", 2)[0], cat, replay(), "[%s] new epoch: %s [%v]", st.name, m, replay()) {
+					return false
+				}
 			}
 			if !okRef {
-				violate("ref", "ref/blocks-differ-new-epoch", replay(), "[%s] new epoch blocks differ from the reference: %s [%v]", st.name, obs, replay())
-				return false
+				if violate("ref", "ref/blocks-differ-new-epoch", replay(), "[%s] new epoch blocks differ from the reference: %s [%v]", st.name, obs, replay()) {
+					return false
+				}
 			}
 			if prev, ok := table2[nm]; ok && prev != obs {
 				cat := "epoch"
 				if strings.Contains(st.name, "restart") || strings.Contains(from2[nm], "restart") || rep["restart"] {
 					cat = "restart"
 				}
-				violate(cat, "epoch/new-epoch-depends-on-history", replay(), "new-epoch event set %v: [%s] observes\n  %s\nbut [%s] observed\n  %s [%v]", maskList(nm), st.name, obs, from2[nm], prev, replay())
-				return false
+				if violate(cat, "epoch/new-epoch-depends-on-history", replay(), "new-epoch event set %v: [%s] observes\n  %s\nbut [%s] observed\n  %s [%v]", maskList(nm), st.name, obs, from2[nm], prev, replay()) {
+					return false
+				}
 			} else if !ok {
 				table2[nm] = obs
 				from2[nm] = st.name
